@@ -40,6 +40,13 @@ func setDefaultShell(p *types.Project) {
 	log.Info().Msgf("Global shell command: %s %s", p.ShellConfig.ShellCommand, p.ShellConfig.ShellArgument)
 }
 
+// setDefaultLogLength applies the default to the merged project, when no file configured a length
+func setDefaultLogLength(p *types.Project) {
+	if p.LogLength == 0 {
+		p.LogLength = defaultLogLength
+	}
+}
+
 func assignDefaultProcessValues(p *types.Project) {
 	if p.Processes == nil {
 		p.Processes = make(map[string]types.ProcessConfig)
